@@ -145,6 +145,13 @@ def pkgFromDetail (d : GoStr) : GoStr :=
 
 def splitLines (s : GoStr) : List GoStr := splitNl s
 
+/-- the details of the items of one completion list, separated by 0x1F -/
+def splitOn31 (s : GoStr) : List GoStr :=
+  let rec go (cur : GoStr) : GoStr → List GoStr
+    | [] => [cur.reverse]
+    | b :: rest => if b == 31 then cur.reverse :: go [] rest else go (b :: cur) rest
+  go [] s
+
 def hasPfx (s p : GoStr) : Bool := p.isPrefixOf s
 
 def kwImportGroup : GoStr := [105, 109, 112, 111, 114, 116, 32, 40]     -- "import ("
@@ -258,14 +265,15 @@ def step (comp : Comp) (s : St) : Op → St × List Ev
       | "Completion" =>
         if isNil then (s, [call, .rCompletion none]) else
         let te := answer.head?.map fun x => mapRangeBack own x.r
-        let adds : List (Rng × GoStr) :=
+        -- one completion item per detail (details are separated by the unit separator 0x1F)
+        let addsOf (detail : GoStr) : List (Rng × GoStr) :=
           if detail.isEmpty then []
           else match get s.srcs uri with
             | none => [(⟨4, 0, 4, 0⟩, [105, 109, 112, 111, 114, 116, 32, 88, 10])]   -- untouched downstream edit
             | some text =>
               let (line, txt) := addImportEdit (splitLines text) (pkgFromDetail detail)
               [(⟨line, 0, line, 0⟩, txt)]
-        (s, [call, .rCompletion (some [(te, adds)])])
+        (s, [call, .rCompletion (some ((splitOn31 detail).map fun d => (te, addsOf d)))])
       | _ => (s, [call])
 
 def run (comp : Comp) (s : St) (ops : List Op) : St × List Ev :=
